@@ -11,6 +11,13 @@ use std::collections::HashMap;
 pub struct GlobalConstantPropagator {
     constants: HashMap<String, aelys_sema::TypedExpr>,
     binders: super::binders::BinderCounts,
+    // top-level statement index of the `let` that defines each constant
+    positions: HashMap<String, usize>,
+    // index of the first top-level statement that can run user code or read a global
+    first_effect: usize,
+    // index of the top-level statement being rewritten, and function nesting inside it
+    cursor: usize,
+    fn_depth: usize,
     stats: OptimizationStats,
 }
 
@@ -19,6 +26,10 @@ impl GlobalConstantPropagator {
         Self {
             constants: HashMap::new(),
             binders: HashMap::new(),
+            positions: HashMap::new(),
+            first_effect: 0,
+            cursor: 0,
+            fn_depth: 0,
             stats: OptimizationStats::new(),
         }
     }
@@ -37,13 +48,23 @@ impl OptimizationPass for GlobalConstantPropagator {
 
     fn run(&mut self, program: &mut TypedProgram) -> OptimizationStats {
         self.constants.clear();
+        self.positions.clear();
         self.stats = OptimizationStats::new();
 
         // substitution is by name with no notion of scope: a name shadowed or rebound
         // anywhere (parameter, local, loop variable, second top-level let) is not a constant
         self.binders = super::binders::count_binders(&program.stmts);
+        // a global read before its `let` has run yields null: a use may only be replaced
+        // when it cannot execute before the definition (see `may_substitute`)
+        self.first_effect = program
+            .stmts
+            .iter()
+            .position(|s| !Self::is_quiet_stmt(s))
+            .unwrap_or(program.stmts.len());
         self.collect_global_constants(&program.stmts);
-        for stmt in &mut program.stmts {
+        for (idx, stmt) in program.stmts.iter_mut().enumerate() {
+            self.cursor = idx;
+            self.fn_depth = 0;
             self.substitute_in_stmt(stmt);
         }
 
